@@ -99,6 +99,8 @@ def check_queries(o, pairs, omarks):
     return bool(via.is_marked(o)) == bool(omarks)
 
 
+_MOBJ = [False]         # True: object-level markings are handed over as MarkingDefinition objects (alone or in a list) instead of id strings
+_FUTURE = [False]       # True: the object's modified time lies ahead of the clock and has digits below the millisecond
 _MIXIN = [False]        # True: call the methods library objects carry (obj.add_markings(...)) instead of the module functions
 
 
@@ -152,26 +154,30 @@ def apply_op(o, pairs, omarks, op, si, mi):
             return o, pairs, omarks, op in (2, 3) and had_any and not any(p[0] == s for p in pairs)
         return n, exp, omarks, True
     m = OMARKS[mi % len(OMARKS)]
+    real_m = m
+    if _MOBJ[0]:
+        m = {M1: stix2.v21.TLP_WHITE, M2: stix2.v21.TLP_GREEN, M3: stix2.v21.TLP_AMBER}[m] if (mi + op) % 2 == 0 else [{M1: stix2.v21.TLP_WHITE, M2: stix2.v21.TLP_GREEN,
+                                                                                                                     M3: stix2.v21.TLP_AMBER}[m]]
     try:
         if op == 4:
             n = via.add_markings(o, m)
-            exp = omarks | {m}
+            exp = omarks | {real_m}
         elif op == 5:
             n = via.remove_markings(o, m)
             if not omarks:
                 exp = omarks
-            elif m not in omarks:
+            elif real_m not in omarks:
                 return o, pairs, omarks, False
             else:
-                exp = omarks - {m}
+                exp = omarks - {real_m}
         elif op == 6:
             n = via.clear_markings(o)
             exp = set()
         else:
             n = via.set_markings(o, m)
-            exp = {m}
+            exp = {real_m}
     except MarkingNotFoundError:
-        return o, pairs, omarks, op == 5 and bool(omarks) and m not in omarks
+        return o, pairs, omarks, op == 5 and bool(omarks) and real_m not in omarks
     return n, pairs, exp, True
 
 
@@ -190,6 +196,8 @@ def start(form, raw):
     """form 0: plain dict, 1: parsed Malware object, 2: Relationship object ('name' stands for relationship_type is not needed: it has no name,
     so form 2 is only used with selector tables that avoid it)"""
     d = base()
+    if _FUTURE[0]:
+        d["modified"] = "2031-01-01T00:00:00.000500Z"
     if raw is not None:
         d["granular_markings"] = [dict(g, selectors=list(g["selectors"])) for g in RAW[raw]]
     if form == 0:
@@ -381,7 +389,13 @@ def objseq(o1: int, m1: int, o2: int, m2: int, o3: int, m3: int, g: int) -> bool
     """
     ops = [(0, pick(g, NP), 0), (pick(o1 - 4, 4) + 4, 0, pick(m1, 3)), (pick(o2 - 4, 4) + 4, 0, pick(m2, 3)), (pick(o3 - 4, 4) + 4, 0, pick(m3, 3))]
     with Native():
-        ok = run_seq(ops)
+        ok = True
+        for mobj, future, form in ((False, False, 0), (True, False, 0), (True, True, 1), (False, True, 0)):
+            _MOBJ[0], _FUTURE[0] = mobj, future
+            try:
+                ok = ok and run_seq(ops, form)
+            finally:
+                _MOBJ[0], _FUTURE[0] = False, False
     V.reached()
     return ok
 
